@@ -8,8 +8,8 @@
     ZodBigInt    types/bigint.go:102-147, 397-462   a nil pass in front of the primitive engine pair
     ZodFile      types/file.go:55-99, 376-435       the complex engine pair + two different result conversions
     ZodFunction  types/function.go:79-144           the complex engine pair (R = any) + one result conversion
-    ZodStruct    types/struct.go:99-190, 487-497    `Parse`: Optional switched on for R = *T, an error REWRITE keyed on the
-                                                    error's text, a result switch; `StrictParse`: T -> R, engine, nothing else
+    ZodStruct    types/struct.go:99-200, 497-507    `Parse`: Optional switched on for R = *T, a REWRITE of the engine's root-level
+                                                    type error (00db003), a result switch; `StrictParse`: T -> R, engine, nothing else
 -/
 import Gozod.Model.Complex
 namespace Gozod.TypeLocal
@@ -131,7 +131,8 @@ def structInternals (c : CCfg P O T V) : CCfg P O T V :=
 
 /-- What is type-specific about the error rewrite of `ZodStruct.Parse`. -/
 structure StructErr (E : Type) where
-  looksLikeTypeErr : E → Bool      -- `strings.Contains(err.Error(), "Invalid input: expected struct, received")`
+  looksLikeTypeErr : E → Bool      -- since /repo 00db003: a single root-level invalid_type issue whose message contains
+                                   -- "Invalid input: expected struct, received" (before: that text anywhere in `err.Error()`)
   rewritten : E                    -- `z.createStructTypeError(input, parseCtx)`
   conversionErr : E                -- `issues.CreateTypeConversionError(…)`
 
@@ -140,7 +141,8 @@ def structParse (env : CEnv P O T V E) (se : StructErr E) (c : CCfg P O T V) (x 
   match Cpx.parse env (structInternals c) x with
   | .err e => if se.looksLikeTypeErr e then .err se.rewritten else .err e
   | .val v => if c.i.ptrSchema then .ptr v else .val v        -- `result.(T)`
-  | .ptr v => if c.i.ptrSchema then .ptr v else .val v        -- `result.(*T)`, non-nil
+  | .ptr v => if c.i.ptrSchema then .ptr v else .val v        -- `result.(*T)`, non-nil: the engine's pointer itself when it is an R
+                                                              -- (/repo 114caec), else `convertToStructConstraintType(*structPtr)`
   | .nilPtr => .nil                                           -- `result.(*T)`, nil: zero
   | .nil => .nil                                              -- `result == nil`: zero
 
